@@ -5,6 +5,8 @@ import (
 	"reflect"
 	"strconv"
 	"strings"
+	"unicode"
+	"unicode/utf8"
 
 	"gitee.com/xuesongtao/protoc-go-valid/valid/internal"
 	// "gitlab.cd.anpro/go/common/valid/internal"
@@ -136,11 +138,9 @@ func ReflectKindIsNum(kind reflect.Kind, isCanFloat ...bool) (is bool) {
 
 // IsExported 是可导出
 func IsExported(fieldName string) bool {
-	if fieldName == "" {
-		return false
-	}
-	first := fieldName[0]
-	return first >= 'A' && first <= 'Z'
+	// 与 Go 的导出规则一致: 首字符为 Unicode 大写字母(不仅仅是 A-Z)
+	first, _ := utf8.DecodeRuneInString(fieldName)
+	return unicode.IsUpper(first)
 }
 
 // validInputSize 验证输入的大小
